@@ -297,14 +297,45 @@ func readerKeywordSwitches(p *Program, pkgSuffix string) []*kwSwitch {
 				for _, cc := range sw.Body.List {
 					cl := cc.(*ast.CaseClause)
 					fields := map[*types.Var]bool{}
+					// a nested switch on a string inside a multi-label clause
+					// (case "SINCE", "ON", …: … switch key { case "ON": … }) refines
+					// the clause per token: what its cases assign belongs to their
+					// own token only
+					perTok := map[string]map[*types.Var]bool{}
 					for _, st := range cl.Body {
+						if inner, ok := st.(*ast.SwitchStmt); ok && inner.Tag != nil && len(cl.List) > 1 {
+							if b, ok := pk.TypesInfo.TypeOf(inner.Tag).Underlying().(*types.Basic); ok && b.Info()&types.IsString != 0 {
+								for _, icc := range inner.Body.List {
+									icl := icc.(*ast.CaseClause)
+									fs := map[*types.Var]bool{}
+									for _, ist := range icl.Body {
+										for v := range assigned(ist, 1) {
+											fs[v] = true
+										}
+									}
+									for _, e := range icl.List {
+										if tok, ok := constStringOf(pk, e); ok {
+											perTok[tok] = fs
+										}
+									}
+								}
+								continue
+							}
+						}
 						for v := range assigned(st, 1) {
 							fields[v] = true
 						}
 					}
 					for _, e := range cl.List {
 						if tok, ok := constStringOf(pk, e); ok {
-							ks.cases[tok] = fields
+							fs := map[*types.Var]bool{}
+							for v := range fields {
+								fs[v] = true
+							}
+							for v := range perTok[tok] {
+								fs[v] = true
+							}
+							ks.cases[tok] = fs
 						}
 					}
 				}
